@@ -147,7 +147,7 @@ def cancel_sources(R, r):
         out.append((FatalError, m if m else f"UserExc({m!r})"))
     elif how == 'with_kbi':
         out.append((CancelledError, 'KeyboardInterrupt()'))
-    for (step, what) in R.sched.kbi_delivered:
+    for (step, what, *_q) in R.sched.kbi_delivered:
         # Ctrl-C in result() cancels that future with ''; Ctrl-C inside
         # shutdown's wait cancels everything with 'KeyboardInterrupt()'
         out.append((CancelledError, ''))
@@ -581,7 +581,7 @@ def oracle_c07(R):
         return v
     how = end.get('how')
     interrupted_end = any(st >= end.get('cancel_step', 1 << 60)
-                          for (st, w) in R.sched.kbi_delivered)
+                          for (st, w, *_q) in R.sched.kbi_delivered)
     # (f) the entry point returns / re-raises only the interrupt
     if how in ('shutdown', 'shutdown_cancel'):
         ex = end.get('raised')
@@ -683,6 +683,39 @@ def oracle_c07(R):
                               f'transfer {i} was cancelled (step {fd}) before '
                               f'its submission task started ({ts}) yet issued '
                               f'{n}'))
+    # Ctrl-C while the user is parked inside shutdown()/the with-exit: when
+    # the user thread then runs uninterrupted (quiet schedule) the library's
+    # reaction completes before any other thread runs, so a transfer that was
+    # not done and had no request/IO task executing must end cancelled
+    for (k, what, *q) in R.sched.kbi_delivered:
+        if not (q and q[0]) or k < end.get('cancel_step', 1 << 60):
+            continue
+        if how not in ('shutdown', 'with', 'shutdown_cancel', 'with_exc'):
+            continue
+        if reenter_summary(R.case):
+            continue
+        for r in R.transfers:
+            i = r['i']
+            o = r['outcome']
+            if o is None or r['future'] is None or delivered_for(R, r):
+                continue
+            if any(c['t'] == i for c in R.cancel_log):
+                continue
+            fd = R.first_done.get(i)
+            if fd is not None and fd <= k:
+                continue
+            busy = [it for x in (0, 2) if x < len(R.executors)
+                    for it in R.executors[x].items
+                    if it['transfer'] == i and it['start'] is not None
+                    and it['start'] <= k
+                    and (it['end'] is None or it['end'] > k)]
+            if not busy and o.get('ok') and R.executors:
+                v.append((f'c07:{kind_of(r)}:ctrl-c-in-{what}:not-cancelled',
+                          f'Ctrl-C was delivered at step {k} while the user '
+                          f'was parked in {what} inside {how}; transfer {i} '
+                          f'was not done and none of its request/IO tasks '
+                          f'was executing, yet it ran to success instead of '
+                          f'being cancelled'))
     # (e) cleanups
     for sig, msg in oracle_c05(R) + oracle_c06(R):
         v.append(('c07:cleanup:' + sig, msg))
